@@ -423,7 +423,13 @@ struct Row { b: [u8; 224], n: usize }
 impl Row {
     fn new() -> Row { Row { b: [0; 224], n: 0 } }
     fn ch(&mut self, c: u8) { self.b[self.n] = c; self.n += 1; }
-    fn digit(&mut self, v: u64) { self.ch(b'0' + v as u8); }
+    fn num(&mut self, v: u64) {
+        let mut t = [0u8; 20];
+        let mut n = 0;
+        let mut x = v;
+        while n < 20 { t[n] = b'0' + (x % 10) as u8; x /= 10; n += 1; if x == 0 { break; } }
+        while n > 0 { n -= 1; self.ch(t[n]); }
+    }
     fn hash(&mut self, h: &[u8; 32]) {
         let t = b"0123456789abcdef";
         let mut i = 32;
@@ -446,14 +452,21 @@ impl Row {
 #[kani::stub(<std::io::Error as std::error::Error>::cause, crate::verif_models::fs::stub_no_cause)]
 #[kani::stub(crate::common::utils::arr_to_hex, hex1)]
 #[kani::unwind(230)]
-fn c01_row_text() {
-    unsafe { fmtm::STRUCTURED.v = true; fmtm::MAX_DIGITS.v = 1; gfs::LOG_CONTENT.v = true; }
+fn c01_row_text() { row_text_body([1, 2, 3, 4, 5, 6, 7, 8, 9, 1, 3, 0], 1) }
+// every transaction-level integer at the maximum of its type (index 0xffffffff is the coinbase marker on a non-null txid)
+//@ id=C01 tier=thorough name=c01_row_text_max timeout=3000 role=block_rows bound=1-block,1-tx,1-input,1-output,CONCRETE-values:tx-version/locktime/index/sequence=u32::MAX,value=u64::MAX,height-2^32,structured-format-model mem=24
+#[kani::proof]
+#[kani::stub(std::io::Error::is_interrupted, crate::verif_models::fs::stub_not_interrupted)]
+#[kani::stub(<std::io::Error as std::error::Error>::source, crate::verif_models::fs::stub_no_source)]
+#[kani::stub(<std::io::Error as std::error::Error>::cause, crate::verif_models::fs::stub_no_cause)]
+#[kani::stub(crate::common::utils::arr_to_hex, hex1)]
+#[kani::unwind(230)]
+fn c01_row_text_max() { row_text_body([1, 2, 3, 4, 5, 0xffffffff, 0xfffffffe, 0xffffffff, 0xfffffffd, u64::MAX, 4294967296, 0], 20) }
+fn row_text_body(d: [u64; 12], digits: usize) {
+    unsafe { fmtm::STRUCTURED.v = true; fmtm::MAX_DIGITS.v = digits; gfs::LOG_CONTENT.v = true; }
     // [measured] symbolic field values (even one digit each and two bytes per hash) did not finish in 15 min; with
     // concrete values the real on_block / as_csv code and the model take 515 s / 14 GiB (unwind 230 for the 207-byte row)
     let hs: [[u8; 32]; 5] = [[0x1a; 32], [0x2b; 32], [0x3c; 32], [0x4d; 32], [0x5e; 32]]; // block hash, prev hash, merkle root, txid, spent txid
-    let d: [u8; 12] = [1, 2, 3, 4, 5, 6, 7, 8, 9, 1, 3, 0];
-    let mut i = 0;
-    while i < 12 { kani::assume(d[i] < 10); i += 1; }
     let sc: [u8; 2] = [0xab, 0xcd];
     let mut block = mk_block(1, 1, 1, true);
     block.size = d[0] as u32;
@@ -470,28 +483,28 @@ fn c01_row_text() {
     block.txs[0].value.inputs[0].outpoint = TxOutpoint::new(sha256d::Hash::from_byte_array(hs[4]), d[7] as u32);
     block.txs[0].value.inputs[0].seq_no = d[8] as u32;
     block.txs[0].value.inputs[0].script_sig[0] = sc[0];
-    block.txs[0].value.outputs[0].out.value = d[9] as u64;
+    block.txs[0].value.outputs[0].out.value = d[9];
     block.txs[0].value.outputs[0].out.script_pubkey[0] = sc[1];
-    let height = d[10] as u64;
+    let height = d[10];
     let mut cb = mk_dump(256);
     match cb.on_block(&block, height) { Ok(()) => {}, Err(e) => { core::mem::forget(e); assert!(false, "C01:on_block_ok"); } }
     match cb.on_complete(height) { Ok(()) => {}, Err(e) => { core::mem::forget(e); assert!(false, "C01:completion_ok"); } }
     // (@hash, height, version, blocksize, @hashPrev, @hashMerkleRoot, nTime, nBits, nNonce)
     let mut r = Row::new();
-    r.hash(&hs[0]); r.ch(b';'); r.digit(height); r.ch(b';'); r.digit(d[1] as u64); r.ch(b';'); r.digit(d[0] as u64); r.ch(b';');
-    r.hash(&hs[1]); r.ch(b';'); r.hash(&hs[2]); r.ch(b';'); r.digit(d[2] as u64); r.ch(b';'); r.digit(d[3] as u64); r.ch(b';'); r.digit(d[4] as u64); r.ch(b'\n');
+    r.hash(&hs[0]); r.ch(b';'); r.num(height); r.ch(b';'); r.num(d[1]); r.ch(b';'); r.num(d[0]); r.ch(b';');
+    r.hash(&hs[1]); r.ch(b';'); r.hash(&hs[2]); r.ch(b';'); r.num(d[2]); r.ch(b';'); r.num(d[3]); r.ch(b';'); r.num(d[4]); r.ch(b'\n');
     assert!(r.same_as_file(3), "C01:block_row_is_hash_height_version_size_prev_merkle_time_bits_nonce");
     // (@txid, @hashBlock, version, lockTime)
     let mut r = Row::new();
-    r.hash(&hs[3]); r.ch(b';'); r.hash(&hs[0]); r.ch(b';'); r.digit(d[5] as u64); r.ch(b';'); r.digit(d[6] as u64); r.ch(b'\n');
+    r.hash(&hs[3]); r.ch(b';'); r.hash(&hs[0]); r.ch(b';'); r.num(d[5]); r.ch(b';'); r.num(d[6]); r.ch(b'\n');
     assert!(r.same_as_file(4), "C01:tx_row_is_txid_blockhash_version_locktime");
     // (@txid, @hashPrevOut, indexPrevOut, scriptSig, sequence)
     let mut r = Row::new();
-    r.hash(&hs[3]); r.ch(b';'); r.hash(&hs[4]); r.ch(b';'); r.digit(d[7] as u64); r.ch(b';'); r.byte(sc[0]); r.ch(b';'); r.digit(d[8] as u64); r.ch(b'\n');
+    r.hash(&hs[3]); r.ch(b';'); r.hash(&hs[4]); r.ch(b';'); r.num(d[7]); r.ch(b';'); r.byte(sc[0]); r.ch(b';'); r.num(d[8]); r.ch(b'\n');
     assert!(r.same_as_file(5), "C01:input_row_is_txid_prevout_index_scriptsig_sequence");
     // (@txid, indexOut, value, @scriptPubKey, address)
     let mut r = Row::new();
-    r.hash(&hs[3]); r.ch(b';'); r.digit(0); r.ch(b';'); r.digit(d[9] as u64); r.ch(b';'); r.byte(sc[1]); r.ch(b';'); r.ch(b'a'); r.ch(b'\n');
+    r.hash(&hs[3]); r.ch(b';'); r.num(0); r.ch(b';'); r.num(d[9]); r.ch(b';'); r.byte(sc[1]); r.ch(b';'); r.ch(b'a'); r.ch(b'\n');
     assert!(r.same_as_file(6), "C01:output_row_is_txid_index_value_scriptpubkey_address");
     kani::cover!(d[1] != d[0] && d[2] != d[3] && d[3] != d[4] && d[5] != d[6] && d[7] != d[8] && d[9] != 0 && d[10] != d[1], "all integer columns distinguishable");
     core::mem::forget(cb);
